@@ -467,4 +467,86 @@ def rtWfFull : Body → Bool
 def noConstrained (allCs : List (String × Nat)) (v : Value) : Bool :=
   allCs.all fun kc => (v.get? kc.1).isNone
 
+/-! ### the slack-free class (C04): every accepted input is the reference encoding of the value returned -/
+
+def arrayShape : Items → String → Option Shape
+  | .nil, _ => none
+  | .cons (.array id _ _ sh _) r, t => if id == t then some sh else arrayShape r t
+  | .cons _ r, t => arrayShape r t
+
+/-- a bit-field of the slack-free class: a value (≤ 64 bits), a constant, or a size / count field whose
+    target follows in the field list and is delimited by it (`later`: the items after the chunk) -/
+def bfExact (later : Items) : BitField → Bool
+  | .scalar _ w => decide (w ≤ 64)
+  | .enumTy _ _ e => decide (e.width ≤ 64)
+  | .fixed w c => decide (c < 2 ^ w)
+  | .size t _ m =>
+    if t == "_payload_" then payloadMode later == some (.sized m)
+    else t != "_body_" && m == 0 && arrayShape later t == some .sizeField
+  | .count t w => decide (w < 64) && arrayShape later t == some .countField
+  | _ => false
+
+/-- context keys bound by the chunks of a field list -/
+def keysBound : Items → List Key
+  | .nil => []
+  | .cons (.chunk fs) r => chunkKeys fs ++ keysBound r
+  | .cons _ r => keysBound r
+
+def chunkIds : List BitField → List String
+  | [] => []
+  | .scalar id _ :: r => id :: chunkIds r
+  | .enumTy id _ _ :: r => id :: chunkIds r
+  | _ :: r => chunkIds r
+
+/-- names of the fields the decoder appends to the value, in order -/
+def itemsIds : Items → List String
+  | .nil => []
+  | .cons (.chunk fs) r => chunkIds fs ++ itemsIds r
+  | .cons (.typedef id _ _) r => id :: itemsIds r
+  | .cons (.optional id _ _ _) r => id :: itemsIds r
+  | .cons (.array id _ _ _ _) r => id :: itemsIds r
+  | .cons (.payload _) r => itemsIds r
+
+/-- the list-level conditions of the slack-free class: identifiers and context keys are bound once -/
+def exactLevel (items : Items) : Bool :=
+  decide ((arrayIds items).Nodup) && decide ((payloadModes items).length ≤ 1) &&
+  decide ((keysBound items).Nodup) && decide ((itemsIds items).Nodup) && !(itemsIds items).contains "payload"
+
+mutual
+def exactWfTy : Ty → Bool
+  | .scalar w => w % 8 == 0 && decide (w ≤ 64)
+  | .enumTy _ e => e.width % 8 == 0 && decide (e.width ≤ 64)
+  | .custom _ w => w % 8 == 0
+  | .struct _ (.root _ items) => exactWfItems items && exactLevel items
+  | .struct _ (.derived ..) => false
+def exactWfItem (later : Items) : Item → Bool
+  | .chunk fs => chunkBits fs % 8 == 0 && fs.all (bfExact later)
+  | .typedef _ ty _ => exactWfTy ty
+  | .optional .. => false
+  | .payload _ => true
+  | .array id elem ew _ pad =>
+    pad.isNone && exactWfTy elem && lenWfTy elem && id != "_payload_" && id != "_body_" &&
+    (match ew with
+     | .static w => staticTy elem == some w
+     | .dynamic => false
+     | .unknown => true)
+def exactWfItems : Items → Bool
+  | .nil => true
+  | .cons i r => exactWfItem r i && exactWfItems r
+end
+
+/-- does the field list delimit something by this context entry? -/
+def consumes (is : Items) : Key → Bool
+  | .count t => arrayShape is t == some .countField
+  | .size t =>
+    if t == "_payload_" then (match payloadMode is with | some (.sized _) => true | _ => false)
+    else arrayShape is t == some .sizeField
+  | _ => false
+
+/-- packets and structs without parent, without reserved bits, padding, optional fields, element-size
+    fields and array size modifiers, whose size and count fields each delimit a later array or the payload -/
+def exactWfBody : Body → Bool
+  | .root _ items => exactWfItems items && exactLevel items
+  | .derived .. => false
+
 end Pdlv
